@@ -146,6 +146,9 @@ def body(ctx, shard):
     res = S.run_spec(sp)
     if res['failed_at'] is not None:
         return Outcome('build-raised', [], False, digest=res['status'][-1][:50])
+    if any(res['status'][i] == 'ok' for i in info.get('refused_ops', ())):
+        # the assignment meant to be refused was accepted (an attribute that takes anything): outside this alphabet
+        return Outcome('refused-reassign-accepted', [], False, digest='accepted')
     if res['write'] != 'ok':
         # the write was rejected: repair the object through the setters, write the same objects again and compare
         # the second file with the model of the repaired specification
